@@ -530,8 +530,12 @@ def run(c: Check):
               "number of them as constructor keywords, the others by assignment: the .values dict is in that "
               "assignment order, reported by the driver and given to the model), 30% of the Node/T objects hold one "
               "sub-configuration in two parameters; the second submit is a fresh copy of the same configuration: "
-              "35% with every dict filled in the opposite order, 35% with the parameters assigned in another "
-              "order, 30% identical")
+              "25% with every dict filled in the opposite order, 25% with the parameters assigned in another "
+              "order, 25% with the pre-tasks of every configuration added in another order, 25% identical; 35% of "
+              "the cases get 2-3 extra lightweight tasks and pre-task attachments mostly draw distinct ones; a "
+              "directed probe (add_pretasks(a, b) vs (b, a)) selects the model variant for the placement of "
+              "pre-tasks, another one submits a task whose parameter defaults to a configuration with a generated "
+              "path (configuration-valued defaults are never generated)")
     c.build()
     c.props()
     n = 1600 if c.quick else 20000
